@@ -604,6 +604,16 @@ def check_wiring(ctx, w):
         ok = got == '_get_section_header(self,get_shstrndx(self))'
     ctx.ob('W-WIRE', g.construct, 'name table = section get_shstrndx()', ok,
            msg='section-name string table is not the section designated by e_shstrndx / its escape', got=got)
+    # gABI: e_shstrndx == SHN_UNDEF means the file has no section name string table.  The names of its sections are then not encoded at
+    # all; taking section 0 (offset 0) for the table reads "names" out of the ELF header.  Some returning path must be conditioned on the
+    # index being SHN_UNDEF / 0.
+    g = w.model.func(FILE, 'ELFFile._get_section_header_stringtable')
+    env = expr.FEnv(g.node, inline=False)
+    conds = [expr.cond_str(t, env) for c, r, p in paths.returns_with_conds(g.node) for t, pol in c]
+    undef = any(('stringtable_section_num' in c or 'shstrndx' in c) and ('== 0' in c or 'SHN_UNDEF' in c) for c in conds)
+    ctx.ob('W-WIRE', g.construct, 'SHN_UNDEF means no name table', undef, got=conds,
+           msg='e_shstrndx == SHN_UNDEF (no section name string table) is not distinguished: section 0 is used as the table and every '
+               'section name is read from the bytes of the ELF header')
     g = w.model.func(FILE, 'ELFFile.__getitem__')
     env = expr.FEnv(g.node, params=('name',))
     got = [expr.nfs(r.value, env) for r in expr.returns_of(g.node)]
